@@ -629,10 +629,10 @@ impl Prop for Finds {
     }
     fn floors(&self) -> Vec<(&'static str, u64, u64)> {
         match self.0 {
-            Which::Prefix => vec![("prefix len 1", 500, 5000), ("prefix len 2", 500, 5000), ("prefix len >3", 2000, 20000), ("word with stem < len", 200, 2000), ("function word", 20, 200), ("word > 20 letters", 20, 200), ("judged queries echoed through the registry after a locale switch of the id", 500, 5000), ("judged queries preceded by the same query under a lower limit", 1000, 10000), ("stores with a title in letters outside the BMP", 20, 200), ("stores with a word (or word pair) of more than 1024 letters", 2, 20), ("stores with a word of more than 4096 letters", 2, 20), ("stores cleared and refilled before the judged searches", 100, 1000), ("judged queries preceded by the searches of a person typing them", 5000, 50000), ("titles with more than 20 words", 100, 1000)],
-            Which::Typo => vec![("substitution at first", 50, 500), ("insertion at first", 50, 500), ("deletion at first", 50, 500), ("transposition at first", 50, 500), ("transposition at last", 50, 500), ("len 5", 200, 2000), ("len >20", 100, 1000), ("judged queries echoed through the registry after a locale switch of the id", 500, 5000), ("judged queries preceded by the same query under a lower limit", 1000, 10000), ("stores with a title in letters outside the BMP", 20, 200), ("stores with a word (or word pair) of more than 1024 letters", 2, 20), ("stores with a word of more than 4096 letters", 2, 20), ("stores cleared and refilled before the judged searches", 100, 1000), ("typo letter that is an accented letter of the language", 3000, 30000), ("judged queries preceded by the searches of a person typing them", 5000, 50000), ("titles with more than 20 words", 30, 300), ("exhaustive-letter edits", 30000, 250000), ("exhaustive-letter words that are function words", 150, 150)],
-            Which::Whole => vec![("whole title", 1000, 10000), ("first last", 300, 3000), ("judged queries echoed through the registry after a locale switch of the id", 500, 5000), ("judged queries preceded by the same query under a lower limit", 1000, 10000), ("stores with a title in letters outside the BMP", 20, 200), ("stores with a word (or word pair) of more than 1024 letters", 2, 20), ("stores with a word of more than 4096 letters", 2, 20), ("stores cleared and refilled before the judged searches", 100, 1000), ("judged queries preceded by the searches of a person typing them", 5000, 50000), ("last first", 300, 3000), ("title with function word", 50, 500), ("titles with more than 20 words", 200, 2000), ("catalogues searched while small, then grown and given limit = N", 6, 60), ("titles with more than 65 536 distinct grams", 1, 10)],
-            Which::SplitJoin => vec![("split", 2000, 20000), ("split after first letter", 200, 2000), ("judged queries echoed through the registry after a locale switch of the id", 500, 5000), ("judged queries preceded by the same query under a lower limit", 1000, 10000), ("stores with a title in letters outside the BMP", 20, 200), ("stores with a word (or word pair) of more than 1024 letters", 2, 20), ("stores with a word of more than 4096 letters", 2, 20), ("stores cleared and refilled before the judged searches", 100, 1000), ("judged queries preceded by the searches of a person typing them", 5000, 50000), ("join", 100, 1000), ("join with 1-letter first word", 3, 30), ("titles with more than 20 words", 100, 1000), ("split followed by a separator", 20000, 200000), ("split next to symbols inside the word", 300, 3000)],
+            Which::Prefix => vec![("prefix len 1", 500, 5000), ("prefix len 2", 500, 5000), ("prefix len >3", 2000, 20000), ("word with stem < len", 200, 2000), ("function word", 20, 200), ("word > 20 letters", 20, 200), ("judged queries echoed through the registry after a locale switch of the id", 500, 5000), ("judged queries preceded by the same query under a lower limit", 1000, 10000), ("stores with a title in letters outside the BMP", 20, 200), ("stores with a word (or word pair) of more than 1024 letters", 2, 20), ("stores with a word of more than 4096 letters", 2, 10), ("stores cleared and refilled before the judged searches", 100, 1000), ("judged queries preceded by the searches of a person typing them", 5000, 50000), ("titles with more than 20 words", 100, 1000), ("catalogues of more than 2^19 records that share their first letter", 1, 10)],
+            Which::Typo => vec![("substitution at first", 50, 500), ("insertion at first", 50, 500), ("deletion at first", 50, 500), ("transposition at first", 50, 500), ("transposition at last", 50, 500), ("len 5", 200, 2000), ("len >20", 100, 1000), ("judged queries echoed through the registry after a locale switch of the id", 500, 5000), ("judged queries preceded by the same query under a lower limit", 1000, 10000), ("stores with a title in letters outside the BMP", 20, 200), ("stores with a word (or word pair) of more than 1024 letters", 2, 20), ("stores with a word of more than 4096 letters", 2, 10), ("stores cleared and refilled before the judged searches", 100, 1000), ("typo letter that is an accented letter of the language", 3000, 30000), ("judged queries preceded by the searches of a person typing them", 5000, 50000), ("titles with more than 20 words", 30, 300), ("exhaustive-letter edits", 30000, 250000), ("exhaustive-letter words that are function words", 150, 150)],
+            Which::Whole => vec![("whole title", 1000, 10000), ("first last", 300, 3000), ("judged queries echoed through the registry after a locale switch of the id", 500, 5000), ("judged queries preceded by the same query under a lower limit", 1000, 10000), ("stores with a title in letters outside the BMP", 20, 200), ("stores with a word (or word pair) of more than 1024 letters", 2, 20), ("stores with a word of more than 4096 letters", 2, 10), ("stores cleared and refilled before the judged searches", 100, 1000), ("judged queries preceded by the searches of a person typing them", 5000, 50000), ("last first", 300, 3000), ("title with function word", 50, 500), ("titles with more than 20 words", 200, 2000), ("catalogues searched while small, then grown and given limit = N", 6, 60), ("titles with more than 65 536 distinct grams", 1, 10)],
+            Which::SplitJoin => vec![("split", 2000, 20000), ("split after first letter", 200, 2000), ("judged queries echoed through the registry after a locale switch of the id", 500, 5000), ("judged queries preceded by the same query under a lower limit", 1000, 10000), ("stores with a title in letters outside the BMP", 20, 200), ("stores with a word (or word pair) of more than 1024 letters", 2, 20), ("stores with a word of more than 4096 letters", 2, 10), ("stores cleared and refilled before the judged searches", 100, 1000), ("judged queries preceded by the searches of a person typing them", 5000, 50000), ("join", 100, 1000), ("join with 1-letter first word", 3, 30), ("titles with more than 20 words", 100, 1000), ("split followed by a separator", 20000, 200000), ("split next to symbols inside the word", 300, 3000)],
         }
     }
     fn ratios(&self) -> Vec<(&'static str, &'static str, f64, f64)> {
@@ -673,7 +673,7 @@ impl Prop for Finds {
                     cx.count("stores with a title in letters outside the BMP");
                 }
                 // (at fixed case numbers: a word of more than 4096 letters - some 17 million matrix cells per search)
-                let giant4k = cx.tier != Tier::Miri && idx % 1200 == 601;
+                let giant4k = cx.tier != Tier::Miri && idx % 1200 == 601 && idx < 48_000;
                 if cx.tier != Tier::Miri && (giant4k || cx.rng.chance(1, 250)) {
                     // a title with a word of more than 1024 letters, or two words whose run-together spelling passes 1024
                     let alpha = gen::lower_alphabet(lang);
@@ -797,6 +797,35 @@ impl Prop for Finds {
                 // dominant word's one- and two-letter starts with it ("wi-fi" / "wifi" next to thousands of "with ...")
                 let lang = LANGS[(idx % NL) as usize];
                 let alpha = gen::lower_alphabet(lang);
+                if self.0 == Which::Prefix && idx % 16 == 9 && cx.tier != Tier::Miri {
+                    // more than 2^19 records that all start with the same letter, limit = N: typing that letter lists every one
+                    // of them (the largest store any monitor builds; beyond it nothing is explored)
+                    let n = (1usize << 19) + cx.rng.range(1, 40_000);
+                    let (a, b, c) = (alpha[cx.rng.below(alpha.len())], alpha[cx.rng.below(alpha.len())], alpha[cx.rng.below(alpha.len())]);
+                    let mut st = St::sentinel(lang, n);
+                    for i in 0..n {
+                        let t = if i % 2 == 0 { s(&[a, b]) } else { s(&[a, b, ' ', c]) };
+                        st.add(&(i, t, i % 7));
+                    }
+                    let q = s(&[a]);
+                    cx.ctx(format!("C03 big lang={} {} records titled {:?} or {:?}, limit = N, q={:?}", lang, n, s(&[a, b]), s(&[a, b, ' ', c]), q));
+                    let got = st.search_ids(&q);
+                    cx.eval();
+                    cx.count("catalogues of more than 2^19 records that share their first letter");
+                    let mut seen = vec![false; n];
+                    for id in &got {
+                        if *id < n {
+                            seen[*id] = true;
+                        }
+                    }
+                    let missing = seen.iter().filter(|x| !**x).count();
+                    if missing > 0 {
+                        let first = seen.iter().position(|x| !*x).unwrap_or(0);
+                        cx.fail("prefix-not-found", json!({"lang": lang, "store": format!("{} records titled {:?} (even ids) or {:?} (odd ids), limit = N", n, s(&[a, b]), s(&[a, b, ' ', c])), "query": q, "hits": got.len(), "records_not_among_the_hits": missing, "first_missing_id": first}));
+                    }
+                    cx.key(hparts(&[lang, &n.to_string(), &q, "half-million"]));
+                    return;
+                }
                 // (one big case in sixteen: 66 000 - 70 000 records, so that more than 2^16 candidates compete under limit = N)
                 let n = if idx % 16 == 3 { *cx.rng.pick(&[66_000usize, 70_000]) } else { *cx.rng.pick(&[4200usize, 4500, 5000, 8300, 9000]) };
                 if n > 60_000 {
